@@ -44,7 +44,7 @@ const (
 // storErr is one drawn error value.
 type storErr struct {
 	Family string `json:"family"` // oidc:<declared type> | oidc-undeclared:<code> | plain:<what>
-	Shape  string `json:"shape"`  // bare | described | parent | parent-to-client | wrapped | joined | status-error:<code>
+	Shape  string `json:"shape"`  // bare | described | parent | parent-to-client | to-client-without-parent | wrapped | joined | status-error:<code>
 	Go     string `json:"go_error"`
 	err    error
 }
@@ -104,7 +104,7 @@ var plainErrors = []struct {
 }
 
 var (
-	oidcShapes       = []string{"bare", "bare", "described", "parent", "parent-to-client", "wrapped", "joined", "status-error"}
+	oidcShapes       = []string{"bare", "bare", "described", "parent", "parent-to-client", "wrapped", "joined", "status-error", "to-client-without-parent"}
 	plainShapes      = []string{"bare", "bare", "wrapped", "status-error"}
 	statusErrorCodes = []int{400, 401, 403, 404, 409, 422, 429, 500, 502, 503}
 )
@@ -125,7 +125,7 @@ func storErrFamilies() []string {
 }
 
 func storErrShapes() []string {
-	return []string{"bare", "described", "parent", "parent-to-client", "wrapped", "joined", "status-error"}
+	return []string{"bare", "described", "parent", "parent-to-client", "wrapped", "joined", "status-error", "to-client-without-parent"}
 }
 
 // familyGroup is the coarse class of a family (for the point x group grid).
@@ -177,6 +177,9 @@ func (x *world) drawStorErr() *storErr {
 			oe = oe.WithParent(errors.New("storage: constraint violated"))
 		case "parent-to-client":
 			oe = oe.WithDescription("refused by policy").WithParent(&ownNotFound{"grant"}).WithReturnParentToClient(true)
+		case "to-client-without-parent":
+			// the option set on an error that has no parent (nothing to return): legal use of the exported API
+			oe = oe.WithDescription("refused by policy").WithReturnParentToClient(true)
 		}
 		base = oe
 		switch se.Shape {
